@@ -1,9 +1,201 @@
 import Driver.Util
-/-! driver ops of C19 (prefix `c19.`); filled in by the C19 work -/
+import Model.BTree
+/-!
+driver ops of C19 (prefix `c19.`).
+
+`c19.hist <t> <in_order> op op …` runs a whole history on the model and prints one result token per op.
+Handles: tree 0 is created by the header; `C,h,io` appends a clone; `c,h` appends a cursor.
+
+ops (comma separated fields):
+  `I,h,k,v` insert_element   `D,h,k` delete_key   `X,h,k,v` delete_exact      → `res|len|shape|digests`
+  `G,h,k` get_element  `L,h` len  `T,h` in-order items  `M,h` minimum/maximum  `S,h` shape
+  `C,h,io` clone  `F,h` make_immutable
+  `c,h` new (registered) cursor  `s,c,k,b` seek  `n,c` next  `p,c` prev  `f,c` seek_first  `l,c` seek_last
+  `P,c` park  `x,c` deregister and drop
+A token that does not parse or names a missing handle yields `!`.
+-/
 namespace Driver
-open Model
+open Model Model.BTree
+
+namespace C19
+
+def showElt (e : Elt) : String := toString e.1 ++ ":" ++ toString e.2
+def showOpt : Option Elt → String
+  | some e => showElt e
+  | none => "-"
+def showElts (es : List Elt) : String := ",".intercalate (es.map showElt)
+
+def showNode : Node → String
+  | .leaf es => "L:" ++ showElts es
+  | .node es cs => "N" ++ toString cs.length ++ ":" ++ showElts es
+
+/-- full shape: every node in preorder with all its elements -/
+def showShape (n : Node) : String := ";".intercalate ((preorder n).map showNode)
+
+def polyHash (s : String) : Nat := s.foldl (fun h c => (h * 256 + c.toNat) % 2147483647) 7
+
+def treeLine (tr : Tree) : String :=
+  showShape tr.root ++ "#" ++ toString tr.size ++ "#" ++ (if tr.immutable then "F" else "M")
+
+def digest (tr : Tree) : Nat := polyHash (treeLine tr)
+
+structure St where
+  trees : Array Tree
+  digs : Array Nat                 -- digest per tree (trees are values: recomputed only for the mutated one)
+  curs : Array (Nat × Cursor × Bool)  -- (tree, cursor, open)
+
+def St.digests (s : St) : String := ",".intercalate (s.digs.toList.map toString)
+
+def St.setTree (s : St) (h : Nat) (tr : Tree) : St :=
+  { s with trees := s.trees.setIfInBounds h tr, digs := s.digs.setIfInBounds h (digest tr) }
+
+/-- `_check_mutable_and_park`: park every registered cursor of tree `h` -/
+def St.parkAll (s : St) (h : Nat) : St :=
+  { s with curs := s.curs.map fun (th, c, o) => if th = h ∧ o then (th, c.park, o) else (th, c, o) }
+
+def mutLine (s : St) (h : Nat) (res : String) : String :=
+  match s.trees[h]? with
+  | some tr => res ++ "|" ++ toString tr.size ++ "|" ++ showShape tr.root ++ "|" ++ s.digests
+  | none => "!"
+
+def outcomeStr : Outcome (Option Elt) → String
+  | .ok o => showOpt o
+  | .immutableErr => "IMM"
+  | .valueError => "VE"
+
+def nats (fs : List String) : Option (List Nat) := fs.mapM String.toNat?
+
+def step (s : St) (tok : String) : St × String :=
+  match tok.splitOn "," with
+  | op :: fs =>
+    match nats fs with
+    | none => (s, "!")
+    | some args =>
+      match op, args with
+      | "I", [h, k, v] =>
+        match s.trees[h]? with
+        | none => (s, "!")
+        | some tr =>
+          let (tr', r) := tr.insert (k, v)
+          let s := (match r with | .immutableErr => s | _ => s.parkAll h).setTree h tr'
+          (s, mutLine s h (outcomeStr r))
+      | "D", [h, k] =>
+        match s.trees[h]? with
+        | none => (s, "!")
+        | some tr =>
+          let (tr', r) := tr.delete k none
+          let s := (match r with | .immutableErr => s | _ => s.parkAll h).setTree h tr'
+          (s, mutLine s h (outcomeStr r))
+      | "X", [h, k, v] =>
+        match s.trees[h]? with
+        | none => (s, "!")
+        | some tr =>
+          let (tr', r) := tr.delete k (some (k, v))
+          let s := (match r with | .immutableErr => s | _ => s.parkAll h).setTree h tr'
+          (s, mutLine s h (outcomeStr r))
+      | "G", [h, k] =>
+        match s.trees[h]? with
+        | none => (s, "!")
+        | some tr => (s, showOpt (tr.get k))
+      | "L", [h] =>
+        match s.trees[h]? with
+        | none => (s, "!")
+        | some tr => (s, toString tr.size)
+      | "T", [h] =>
+        match s.trees[h]? with
+        | none => (s, "!")
+        | some tr => (s, "[" ++ showElts tr.items ++ "]")
+      | "S", [h] =>
+        match s.trees[h]? with
+        | none => (s, "!")
+        | some tr => (s, showShape tr.root)
+      | "M", [h] =>
+        match s.trees[h]? with
+        | none => (s, "!")
+        | some tr =>
+          if tr.size = 0 then (s, "-")
+          else (s, showElt (minimum (height tr.root) tr.root) ++ "/" ++ showElt (maximum (height tr.root) tr.root))
+      | "C", [h, io] =>
+        match s.trees[h]? with
+        | none => (s, "!")
+        | some tr =>
+          match tr.clone (io != 0) with
+          | none => (s, "VE")
+          | some c => ({ s with trees := s.trees.push c, digs := s.digs.push (digest c) }, toString s.trees.size)
+      | "F", [h] =>
+        match s.trees[h]? with
+        | none => (s, "!")
+        | some tr => (s.setTree h tr.makeImmutable, "ok")
+      | "c", [h] =>
+        match s.trees[h]? with
+        | none => (s, "!")
+        | some _ => ({ s with curs := s.curs.push (h, {}, true) }, toString s.curs.size)
+      | "s", [c, k, b] =>
+        match s.curs[c]? with
+        | some (h, _, true) =>
+          match s.trees[h]? with
+          | some tr => ({ s with curs := s.curs.setIfInBounds c (h, Cursor.seek tr.root k (b != 0), true) }, "ok")
+          | none => (s, "!")
+        | _ => (s, "!")
+      | "n", [c] =>
+        match s.curs[c]? with
+        | some (h, cu, true) =>
+          match s.trees[h]? with
+          | some tr =>
+            let (cu', r) := cu.next tr.root
+            ({ s with curs := s.curs.setIfInBounds c (h, cu', true) }, showOpt r)
+          | none => (s, "!")
+        | _ => (s, "!")
+      | "p", [c] =>
+        match s.curs[c]? with
+        | some (h, cu, true) =>
+          match s.trees[h]? with
+          | some tr =>
+            let (cu', r) := cu.prev tr.root
+            ({ s with curs := s.curs.setIfInBounds c (h, cu', true) }, showOpt r)
+          | none => (s, "!")
+        | _ => (s, "!")
+      | "f", [c] =>
+        match s.curs[c]? with
+        | some (h, cu, true) => ({ s with curs := s.curs.setIfInBounds c (h, cu.seekFirst, true) }, "ok")
+        | _ => (s, "!")
+      | "l", [c] =>
+        match s.curs[c]? with
+        | some (h, cu, true) => ({ s with curs := s.curs.setIfInBounds c (h, cu.seekLast, true) }, "ok")
+        | _ => (s, "!")
+      | "P", [c] =>
+        match s.curs[c]? with
+        | some (h, cu, true) => ({ s with curs := s.curs.setIfInBounds c (h, cu.park, true) }, "ok")
+        | _ => (s, "!")
+      | "x", [c] =>
+        match s.curs[c]? with
+        | some (h, cu, true) => ({ s with curs := s.curs.setIfInBounds c (h, cu, false) }, "ok")
+        | _ => (s, "!")
+      | _, _ => (s, "!")
+  | [] => (s, "!")
+
+def runHist (t : Nat) (io : Bool) (ops : List String) : String :=
+  let tr := Tree.empty t io
+  let s0 : St := { trees := #[tr], digs := #[digest tr], curs := #[] }
+  let (_, out) := ops.foldl (fun (acc : St × Array String) tok =>
+    let (s', r) := step acc.1 tok
+    (s', acc.2.push r)) (s0, #[])
+  " ".intercalate ("ok" :: out.toList)
+
+end C19
 
 def handleC19 : List String → Option String
+  | "c19.hist" :: t :: io :: ops => do
+    let t ← t.toNat?
+    let io ← parseBool io
+    if t < 3 then some "err ValueError" else
+    some (C19.runHist t io ops)
+  | ["c19.search", key, ks] => do
+    -- search_in_node on a node whose element keys are `ks` (comma separated, `-` = empty)
+    let key ← key.toNat?
+    let ks ← if ks = "-" then some [] else (ks.splitOn ",").mapM String.toNat?
+    let (i, eq) := searchInNode (ks.map fun k => (k, 0)) key
+    some ("ok " ++ toString i ++ " " ++ (if eq then "1" else "0"))
   | _ => none
 
 end Driver
